@@ -38,7 +38,7 @@ def run(tier, seed):
         rule="Families: `binary` = 28 binary operators x 32^2 value pairs (10 integers incl. MIN, MAX, MAX-1, MIN+1, 2^62; strings; dates; bytes; bools; null; "
              "4 sets; 4 arrays incl. nested; 3 maps); `unary` = 4 x 32; `stack` = every operation sequence of length <= 3 over an 8-symbol alphabet "
              "(underflow, leftovers, misplaced closures); `closure` = lazy operators x erroring / non-boolean right sides, all/any over sets, arrays, maps "
-             "and non-collections, wrong arity, nesting, shadowing of outer parameters and of rule variables; `compose` = a string computed by concatenation compared (4 equality operators, "
+             "and non-collections, wrong arity, nesting, shadowing of outer parameters and of rule variables, several closure-taking operators in one expression (a parameter name reused by a sibling after a quantifier that stopped early or not, read outside its closure); `compose` = a string computed by concatenation compared (4 equality operators, "
              "contains, get) with the same or another string written as a literal, held in an array / set / map key, bound by the rule, or computed too; `extern` = registered and "
              "unregistered extern functions with one and two arguments, a result that is a default symbol, results fed to other operators, closures as arguments, calls under lazy operators and quantifiers. TLC checks totality, type strictness "
              "(Accepts table), laziness; every state is evaluated by Expression::evaluate and value-or-error must equal the spec's; "
